@@ -276,6 +276,15 @@ def rf24_call(d, toks):
         return str(int(r)) if t[2] == "N" else sb(r)
     if m == "address":
         return hx(d.address(int(t[1])))
+    if m == "withraise":        # an exception raised inside the block must come out of it
+        class _Probe(Exception):
+            pass
+        try:
+            with d:
+                raise _Probe()
+        except _Probe:
+            return "raised"
+        return "swallowed"
     if m == "enter":
         d.__enter__()
         return "ok"
